@@ -1198,9 +1198,48 @@ def run_whole(ctx, case):
                              "fresh": held["at_entry"], "rebuilt": held["rebuilt"]})
             r.update(model=model, loaded=loaded, orig_attrs=orig_attrs, kwargs=kwargs, env2=env2, held=held)
             oracle_whole(ctx, case, r)
+            probe_policy_kwargs_override(ctx, case, model, cls)
     finally:
         shutil.rmtree(tmp, ignore_errors=True)
     return r
+
+
+def probe_policy_kwargs_override(ctx, case, model, cls):
+    """`load(path, policy_kwargs=<other than the stored ones>)`: either refused, or the loaded model still IS the saved one
+    (same deterministic predictions); silently building another network around the saved weights is not a reproduction of
+    the model (seeded change C09-j)"""
+    import io
+
+    import torch as th
+
+    pk = dict(getattr(model, "policy_kwargs", None) or {})
+    cur = pk.get("activation_fn")
+    on_policy = type(model).__name__ in ("PPO", "A2C")
+    effective = cur if cur is not None else (th.nn.Tanh if on_policy else th.nn.ReLU)
+    pk["activation_fn"] = th.nn.ReLU if effective is not th.nn.ReLU else th.nn.Tanh
+    buf = io.BytesIO()
+    try:
+        model.save(buf)
+    except Exception:  # noqa  (cases whose save() itself is under test)
+        return
+    buf.seek(0)
+    ctx.report.count("whole:load_with_other_policy_kwargs")
+    try:
+        other = cls.load(buf, device="cpu", policy_kwargs=pk)
+    except ValueError:
+        return   # refused
+    except Exception:  # noqa
+        return
+    obs = model.observation_space.sample()
+    try:
+        a1, _ = model.predict(obs, deterministic=True)
+        a2, _ = other.predict(obs, deterministic=True)
+    except Exception:  # noqa
+        return
+    if not np.array_equal(np.asarray(a1), np.asarray(a2)) or other.policy_kwargs.get("activation_fn") is not effective:
+        ctx.report.violation("load(path, policy_kwargs=<different from the stored ones>) silently built a different network "
+                             "around the saved weights", case, {"kind": "whole", "what": "policy_kwargs_override"},
+                             {"stored": str(effective), "given": str(pk["activation_fn"])})
 
 
 def oracle_whole(ctx, case, r):
